@@ -700,6 +700,7 @@ func (p *Parser) parseRawStatement() (*ast.RawStatement, error) {
 	}
 
 	statement.Value = p.curToken.Literal
+	statement.Token.LineNumber = p.curToken.LineNumber
 	return statement, nil
 }
 
